@@ -20,6 +20,9 @@ VERIF = os.path.dirname(os.path.dirname(os.path.abspath(__file__)))
 EVIDENCE_DIR = os.path.join(VERIF, "evidence")
 REPLAY_DIR = os.path.join(EVIDENCE_DIR, "replays")
 KNOWN_FILE = os.path.join(VERIF, "KNOWN_FINDINGS.txt")
+# events per run: a backstop against runaway runs (an uncaught StepCap is a harness error), generous enough that no
+# legitimately long run meets it; checks whose runs scale with the stream size (C09, C10) set their own
+DEFAULT_CAP = 2_000_000
 
 
 def load_check(cid: str):
@@ -222,7 +225,7 @@ def do_run(mod, seed: int, run: int, tier: str) -> tuple[dict, dict, Sim]:
     plan.setdefault("check", mod.ID)
     plan["seed"] = seed
     plan["run"] = run
-    sim = Sim(rng=rng, cap=plan.get("cap", 200_000))
+    sim = Sim(rng=rng, cap=plan.get("cap", DEFAULT_CAP))
     res = run_plan(mod, plan, sim)
     return plan, res, sim
 
@@ -233,6 +236,7 @@ def _worker(args):
     from . import repo
     repo.setup()
     mod = load_check(cid)
+    key_sample = int(getattr(mod, "KEY_SAMPLE", {}).get(tier, 1))
     agg = {"counters": {}, "faults": {}, "keys": set(), "steps": 0, "runs": 0,
            "viol": {}, "harness": [], "digests": [], "hash": hashlib.sha256(),
            "samples": [], "tape_len": 0, "sched": set()}
@@ -253,8 +257,10 @@ def _worker(args):
         if res["key"] is not None:
             ks = res["key"] if isinstance(res["key"], (set, frozenset)) else (res["key"],)
             for k1 in ks:
-                agg["keys"].add(hashlib.blake2b(repr(k1).encode("utf-8", "backslashreplace"),
-                                                digest_size=8).digest())
+                dg = hashlib.blake2b(repr(k1).encode("utf-8", "backslashreplace"), digest_size=8).digest()
+                if key_sample > 1 and dg[0] % key_sample:
+                    continue        # a 1/key_sample hash sample of the keys is kept (memory), see KEY_SAMPLE
+                agg["keys"].add(dg)
         if res["harness"]:
             if len(agg["harness"]) < 3:
                 agg["harness"].append({"run": run, "error": res["harness"], "plan": plan,
@@ -328,7 +334,7 @@ def match_known(sig: dict, findings: list):
 
 # ------------------------------------------------------------------ replay / minimise
 def replay_plan(mod, plan: dict) -> tuple[dict, Sim]:
-    sim = Sim(tape=plan.get("tape") or [], cap=plan.get("cap", 200_000))
+    sim = Sim(tape=plan.get("tape") or [], cap=plan.get("cap", DEFAULT_CAP))
     res = run_plan(mod, plan, sim)
     return res, sim
 
@@ -402,13 +408,15 @@ def cmd_check(cid: str, tier: str) -> int:
     root = repo.setup()
     mod = load_check(cid)
     seed = int(os.environ.get("VERIF_SEED", "1"))
-    workers = int(os.environ.get("VERIF_WORKERS", "16"))
+    workers = int(os.environ.get("VERIF_WORKERS", "0")) or max(1, min(16, os.cpu_count() or 1))
     n_runs = int(os.environ.get("VERIF_RUNS", "0")) or mod.RUNS[tier]
     want_digests = os.environ.get("VERIF_DIGESTS")
     chunk = max(1, min(getattr(mod, "CHUNK", 250), (n_runs + workers * 4 - 1) // (workers * 4)))
     jobs = [(cid, seed, tier, lo, min(lo + chunk, n_runs), bool(want_digests))
             for lo in range(0, n_runs, chunk)]
-    wall_cap = float(os.environ.get("VERIF_WALL", "0")) or getattr(mod, "WALL", {}).get(tier, 3000)
+    # backstop against hung workers, not a performance requirement: generous, and wider on machines with fewer cores
+    wall_cap = float(os.environ.get("VERIF_WALL", "0")) or getattr(mod, "WALL", {}).get(
+        tier, (3000 if tier == "quick" else 6 * 3600) * max(1.0, 16 / workers))
     results = {}
     harness_fail = None
     if hasattr(mod, "prepare"):
@@ -587,6 +595,11 @@ def cmd_check(cid: str, tier: str) -> int:
             "repo": root, "workers": workers,
         },
     }
+    ks_ = int(getattr(mod, "KEY_SAMPLE", {}).get(tier, 1))
+    if ks_ > 1:
+        ev["coverage"]["distinct_nontrivial_note"] = (
+            f"lower bound: only the keys whose digest falls into 1 of {ks_} hash classes are kept in this tier "
+            f"(memory); the estimate of the full count is {ks_} x distinct_nontrivial")
     ev["coverage"].update(getattr(mod, "EXTRA_COVERAGE", {}))
     if getattr(mod, "EXHAUSTIVE_NOTE", None):
         ev["coverage"]["enumeration_note"] = mod.EXHAUSTIVE_NOTE
